@@ -1,6 +1,156 @@
+(* C09 — property theorems. This file contains nothing but the statements, each closed by
+   `exact <lemma>` from Proofs*.v, with Print Assumptions beneath, and the non-vacuity examples.
+
+   Vocabulary (definitions in Model.v / CaseDefs.v / Proofs.v / ProofsLive.v):
+     store_documents tries pay cin hin cord hord = (s, log, ok)
+        the model of SeqDBClient.StoreDocuments run with BulkMaxTries = tries on payload pay;
+        cin / hin = scripts of the long-term ("cold", write stores) and of the hot tier: per shard
+        the circuit state of its k-th visit and per replica the outcome of its n-th call
+        (ok / error / accepted-but-late / timeout); cord / hord = oracle for the random shard
+        order, one list per sendBulkToStores invocation; s = final write-status state,
+        log = shard visits with their replica calls, ok = (result is nil).
+     HasOk pay t sd r log   a call to replica r of shard sd of tier t carrying payload pay
+                            returned success, and is in the log
+     AckT pay t tin log     tier t is not configured, or has a shard ALL of whose replicas HasOk
+     FullT ts               tier state ts is empty or has a shard whose written bits are all set
+     SkipsOk nr pay [] log  every visit in the log that ran (circuit closed) called each of the
+                            shard's nr replicas, except those with an EARLIER HasOk in the log
+     Covers n o             order o mentions every shard index below n (any permutation does)
+     shard_bud / tier_bud   number of visits of a shard that can still fail according to the
+                            script (open-circuit entries + position of the last non-accepting
+                            outcome among its replicas); minimum over the tier's shards *)
 From Coq Require Import List Bool Arith NArith.
 Import ListNotations.
-From C09 Require Import Model CaseDefs Proofs.
-Theorem C09_tmp : forall pay s, attempts 0 pay s = (s, [], true).
-Proof. exact attempts_zero. Qed.
-Print Assumptions C09_tmp.
+From C09 Require Import Model CaseDefs Proofs ProofsLive ProofsSpec.
+
+(* If the proxy reports the bulk as stored then the hot tier has a shard all of whose replicas
+   returned success for a call carrying exactly this payload, and so has the long-term tier when
+   one is configured.  For every topology (any number of shards and replicas, even ragged), every
+   script of call outcomes and circuit states, EVERY shard order oracle, every tries >= 1. *)
+Theorem C09_ack_sound :
+  forall tries pay cin hin cord hord s log,
+    1 <= tries ->
+    store_documents tries pay cin hin cord hord = (s, log, true) ->
+    AckT pay Cold cin log /\ AckT pay Hot hin log.
+Proof. exact ack_sound. Qed.
+Print Assumptions C09_ack_sound.
+
+(* Invariant of the write-status matrix: a bit written[t][sd][r] is set only if a successful call
+   to that very replica with this payload is in the log — never on the basis of a failed, a
+   skipped or a short-circuited call. *)
+Theorem C09_written_only_on_ok :
+  forall tries pay cin hin cord hord s log ok,
+    store_documents tries pay cin hin cord hord = (s, log, ok) ->
+    forall t sd rp sh r,
+      nth_error (match t with Cold => cold s | Hot => hot s end) sd = Some sh ->
+      nth_error (s_reps sh) r = Some rp -> r_written rp = true ->
+      HasOk pay t sd r log.
+Proof. exact written_only_on_ok. Qed.
+Print Assumptions C09_written_only_on_ok.
+
+(* If after the last attempt some configured tier has no fully written shard, the result is an
+   error. *)
+Theorem C09_fail_reported :
+  forall tries pay cin hin cord hord s log ok,
+    1 <= tries ->
+    store_documents tries pay cin hin cord hord = (s, log, ok) ->
+    (~ FullT (cold s) \/ ~ FullT (hot s)) -> ok = false.
+Proof. exact fail_reported. Qed.
+Print Assumptions C09_fail_reported.
+
+(* Observable form of "never counted as written on the basis of a failed or skipped call": a
+   replica is left out of a shard visit only after an earlier successful call to it. *)
+Theorem C09_skip_only_after_ok :
+  forall tries pay cin hin cord hord s log ok,
+    store_documents tries pay cin hin cord hord = (s, log, ok) ->
+    SkipsOk (nr_sh (shc_of cin) (shc_of hin)) pay [] log.
+Proof. exact skips_sound. Qed.
+Print Assumptions C09_skip_only_after_ok.
+
+(* The bounded retries are really used (so "always fail" is excluded): if the cheapest shard of
+   the long-term tier and the cheapest shard of the hot tier can together fail fewer than `tries`
+   visits, the bulk is acknowledged — whatever the shard orders, as long as each covers all
+   shards.  (Example C09_live_bound_tight: the bound cannot be improved.) *)
+Theorem C09_succeeds_when_possible :
+  forall tries pay cin hin cord hord s log ok,
+    Forall (Covers (length cin)) cord -> Forall (Covers (length hin)) hord ->
+    tier_bud (map mk_shard cin) + tier_bud (map mk_shard hin) < tries ->
+    store_documents tries pay cin hin cord hord = (s, log, ok) -> ok = true.
+Proof. exact succeeds_when_possible. Qed.
+Print Assumptions C09_succeeds_when_possible.
+
+(* Special case named in the design: some shard of every configured tier has a circuit that is
+   never open and replicas that accept every call => acknowledged. *)
+Theorem C09_succeeds_on_healthy_shard :
+  forall tries pay cin hin cord hord s log ok,
+    1 <= tries ->
+    Forall (Covers (length cin)) cord -> Forall (Covers (length hin)) hord ->
+    (cin = [] \/ exists x, In x cin /\ healthy x = true) ->
+    (hin = [] \/ exists x, In x hin /\ healthy x = true) ->
+    store_documents tries pay cin hin cord hord = (s, log, ok) -> ok = true.
+Proof. exact succeeds_on_healthy_shard. Qed.
+Print Assumptions C09_succeeds_on_healthy_shard.
+
+(* Link to the correspondence run: the executable spec checker that is evaluated on the
+   IMPLEMENTATION's result and log (CaseDefs.spec_ok = acknowledgement + skips + liveness) holds
+   on the model's own output for every input with legal (permutation) shard orders. *)
+Theorem C09_model_satisfies_spec :
+  forall tries pay cin hin cord hord,
+    1 <= tries ->
+    forallb (legal_order (length cin)) cord = true ->
+    forallb (legal_order (length hin)) hord = true ->
+    let '(_, log, ok) := store_documents tries pay cin hin cord hord in
+    spec_ok tries pay cin hin ok log = true.
+Proof. exact model_spec_ok. Qed.
+Print Assumptions C09_model_satisfies_spec.
+
+(* The executable acknowledgement check means exactly the Prop-level statement. *)
+Theorem C09_spec_ack_meaning :
+  forall pay t tin log, spec_ack pay t tin log = true <-> AckT pay t tin log.
+Proof. exact spec_ack_iff. Qed.
+Print Assumptions C09_spec_ack_meaning.
+
+(* ------------------------------------------------------------------ non-vacuity *)
+
+(* cold 1x2 + hot 2x1; replica cold/0/1 fails its first call, hot shard 1 is short-circuited on
+   its first visit and hot shard 0 fails once: acknowledged in the second attempt, with a
+   skipped replica (cold/0/0 is not called again) — hypotheses of ack_sound / skip are met *)
+Definition ex_cin : list shard_in := [([], [[OOk]; [OErr; OOk]])].
+Definition ex_hin : list shard_in := [([], [[OTimeout; OSlowOk]]); ([true], [[OOk]])].
+Example C09_nonvacuous_ack :
+  exists s, store_documents 3 7%N ex_cin ex_hin [[0]; [0]] [[1; 0]; [0; 1]] =
+    (s, [mkVisit Cold 0 false [mkCall 0 OOk 7; mkCall 1 OErr 7];
+         mkVisit Cold 0 false [mkCall 1 OOk 7];
+         mkVisit Hot 1 true [];
+         mkVisit Hot 0 false [mkCall 0 OTimeout 7];
+         mkVisit Hot 0 false [mkCall 0 OSlowOk 7]], true).
+Proof. eexists. vm_compute. reflexivity. Qed.
+
+(* a bulk that must fail: the only hot replica never accepts within 3 tries; hypothesis of
+   fail_reported (no fully written hot shard) is met and the result is an error *)
+Example C09_nonvacuous_fail :
+  exists s log, store_documents 3 0%N [] [([], [[OErr; OErr; OTimeout]])] [] [] = (s, log, false)
+                /\ ~ FullT (hot s).
+Proof.
+  eexists. eexists. split. vm_compute. reflexivity.
+  intros [H|(i & sh & Hn & Hw)]. discriminate.
+  destruct i as [|[|i]]; simpl in Hn; try discriminate. inversion Hn; subst. discriminate.
+Qed.
+
+(* budget 1 (cold) + 1 (hot) = 2 < 3: acknowledged exactly in the third attempt *)
+Example C09_nonvacuous_live :
+  tier_bud (map mk_shard [([true], [[OOk]])]) + tier_bud (map mk_shard [([], [[OErr]])]) = 2 /\
+  exists s log, store_documents 3 0%N [([true], [[OOk]])] [([], [[OErr]])] [] [] = (s, log, true)
+                /\ length log = 4.
+Proof. split. reflexivity. eexists. eexists. split. vm_compute. reflexivity. reflexivity. Qed.
+
+(* the bound of C09_succeeds_when_possible is tight: budget 3 with 3 tries fails *)
+Example C09_live_bound_tight :
+  tier_bud (map mk_shard []) + tier_bud (map mk_shard [([], [[OErr; OErr; OErr; OOk]])]) = 3 /\
+  exists s log, store_documents 3 0%N [] [([], [[OErr; OErr; OErr; OOk]])] [] [] = (s, log, false).
+Proof. split. reflexivity. eexists. eexists. vm_compute. reflexivity. Qed.
+
+(* legal orders exist and the spec checker accepts the model on a concrete run *)
+Example C09_nonvacuous_spec :
+  forallb (legal_order (length ex_hin)) [[1; 0]; [0; 1]] = true /\ Covers 2 [1; 0].
+Proof. split. reflexivity. intros i Hi. destruct i as [|[|i]]; simpl; auto. exfalso. inversion Hi as [|? H1]; inversion H1 as [|? H2]; inversion H2. Qed.
